@@ -10,7 +10,11 @@
   build_locked       Executor._build_executor_and_suite checks and runs builds inside `with self._build_lock`
   close_in_finally   Executor.execute closes the data files in a finally block
   restore_in_finally ReBench.execute_experiments (denoise path): minimize_noise is inside the try whose finally calls restore_noise
-  load_before_execute load_data_and_execute_experiments loads the data before executing"""
+  load_before_execute load_data_and_execute_experiments loads the data before executing
+  header_iff_empty   _open_file_and_append_execution_comment opens in append mode and writes the column header only inside
+                     `if is_empty` (is_empty = position 0 after opening)
+  replace_atomic     the -r rewrite creates its copy in the data file's directory (NamedTemporaryFile(dir=...)), installs it with
+                     os.replace after the copy is closed, and never unlinks or moves the data file itself"""
 import ast
 import os
 
@@ -127,6 +131,34 @@ def generate(repo):
         if not isinstance(s, ast.With) and (calls(s, "_persists_data_point_in_open_file") or calls(s, "flush") or calls(s, "write")):
             outside = True
     out.append("Definition persist_locked : bool := %s." % b(inside and not outside))
+    op = find_method(find_class(modp, "_FilePersistence"), "_open_file_and_append_execution_comment")
+    src = dump(op)
+    hdr_in_if = False
+    hdr_elsewhere = False
+    for n in ast.walk(op):
+        if isinstance(n, ast.If) and dump(n.test) == "is_empty":
+            if any("write(csv_header)" in dump(x) for x in n.body):
+                hdr_in_if = True
+    # every write of the header is the one inside the if
+    hdr_elsewhere = src.count("write(csv_header)") != 1
+    append_mode = "open(self._data_filename, 'a+')" in src and "is_empty = data_file.tell() == 0" in src
+    out.append("Definition header_iff_empty : bool := %s." % b(hdr_in_if and not hdr_elsewhere and append_mode))
+    ld = find_method(find_class(modp, "_FilePersistence"), "load_data")
+    lsrc = dump(ld)
+    tmp_in_dir = "NamedTemporaryFile(" in lsrc and "dir=data_dir" in lsrc and "os.path.dirname(os.path.abspath(self._data_filename))" in lsrc
+    replace_after_close = False
+    for n in ast.walk(ld):
+        if isinstance(n, ast.Try):
+            body = n.body
+            for i, st in enumerate(body):
+                if isinstance(st, ast.With) and "target" in dump(st.items[0].context_expr) and calls(st, "_process_lines"):
+                    rest = body[i + 1:]
+                    if rest and "os.replace(target.name, self._data_filename)" in dump(rest[0]) and not calls(st, "replace"):
+                        # nothing in the finally part installs the copy
+                        if not any(calls(x, "replace") or calls(x, "move") or calls(x, "rename") for x in n.finalbody):
+                            replace_after_close = True
+    no_unlink_of_data = "os.unlink(self._data_filename)" not in lsrc and "shutil.move" not in lsrc and "os.rename" not in lsrc
+    out.append("Definition replace_atomic : bool := %s." % b(tmp_in_dir and replace_after_close and no_unlink_of_data))
     # ---- executor
     mode = parse_file(os.path.join(repo, "rebench", "executor.py"))
     ex = find_class(mode, "Executor")
